@@ -273,6 +273,12 @@ def run(ctx):
     got = K("spatial.z", "rhophi_eta", r, p, K("spatial.eta", "rhophi_z", r, p, z)[0])[0]
     ctx.ob("C04.round-trip", "z(r,p, eta(r,p,z)) == z", ring.of(got).eq(ring.of(z)), "does not normalise to the identity", None, K.where("spatial.z", "rhophi_eta"))
     _round_trip_systems(ctx, L)
+    from .. import singular
+
+    ctx.rule("C04.singular-points",
+             "the 9 coordinate accessors keep their conventions at singular stored points (zero vector, on-axis, t = 0, tau = 0): a zero vector converts to zero coordinates, not NaN "
+             "(tables/singular.json, frozen from the pinned tree; IEEE point semantics of the inlined IR)")
+    singular.obligations(ctx, L, "C04.singular-points", set(ACCESSORS))
     ctx.decline("float rounding of round trips; element-wise behaviour inside NumPy/Awkward wrappers (C03)")
 
 
